@@ -33,7 +33,7 @@ CLAIMED = {
  "C11": ("seqmc", "model_checking",
    "explicit-state breadth-first search over the real Db with reader lock/unlock as history events; snapshot oracle for the locked tree, commit-order model for all columns",
    "From a state with a live tree K1: lock(K1)/unlock(K1), commits combining DereferenceTree(K1) with writes to hash and btree columns, later transactions writing the same keys, InsertTree(K2) reusing a node of K1, all stage interleavings, reopen. Oracle: the locked tree equals its snapshot at every state; every column agrees with the model applying transactions in commit-return order at every state, after drain and after reopen; after unlock the removal completes.",
-   "Quick: sequential part (lock/unlock are events; at most 3 process_commits calls per locked period). Thorough additionally runs the threaded variant under loom (`./check C11L`: reader holding the lock and inserting a sharing tree, pruner, later writer, pipeline thread(s); preemption bound 1-3; ~0.1 s per schedule because opening a multitree column scans its ref-count table under loom, so the wall cap is usually hit and reported).",
+   "Quick: sequential part (lock/unlock are events; at most 3 process_commits calls per locked period). Thorough additionally runs the threaded variant under loom (`./check C11L`: reader holding the lock and inserting a sharing tree, pruner, later writer, pipeline thread(s); preemption bound 1-3; ~0.1 s per schedule because opening a multitree column scans its ref-count table under loom, so the wall cap was usually hit before the small-index build; two races of the deferral protocol found there are listed as known findings and tolerated by class).",
    "DESIGN.md §3 E1, §4 C11"),
  "C06": ("seqmc-sweep", "exploration",
    "exhaustive one-parameter sweeps over the real Db: every boundary length (quick) / every length 0..70000 (thorough) x content class x compression configuration; all ordered pairs/triples of representative size classes as overwrite sequences",
@@ -73,7 +73,7 @@ CLAIMED = {
  "C09": ("seqmc+crashmc", "model_checking",
    "explicit-state breadth-first search over the real Db with adversarial key families (identity hashing) and reindex batches as events; crash-point enumeration over growth edges",
    "From a state with one full 64-entry index page: commits that overflow it (growth 16->17 bits), remove/replace keys still in the old index, build and edit a 3-key collision chain equal in every index-visible bit, overflow the new index's page (second growth from a reindex batch), interleaved with every stage event incl. reindex batches, and reopen; every key ever written is read after every event. Crash scenarios put a crash point at every file operation of every edge of a growth (new index creation, batch records, DropTable, unlink of the old file) with the C02 oracle.",
-   "Bounds per scenario (quick: one commit after the fill; thorough: up to three, growth+crash with a following commit, power loss). At most 6 reindex-batch events per history. 'Each live key exactly once across index files' needs the file parser (C14, not built).",
+   "Bounds per scenario (quick: one commit after the fill; thorough: up to three, growth+crash with a following commit, power loss). `./check C09` runs two parts side by side: the stepping part (evidence C09.json) and the threaded part (evidence C09-loom.json: growth in progress, reader thread(s) reading keys that still live in the old index while a pipeline thread completes the migration and drops the old index; loom, preemption bound 1 complete, 2 to the wall cap; small-index build). At most 6 reindex-batch events per history. 'Each live key exactly once across index files' needs the file parser (C14, not built).",
    "DESIGN.md §4 C09"),
  "C17": ("admin", "exploration",
    "exhaustive finite sweeps: all 384 option combinations x 3 column positions through the metadata round trip; all layouts x administration calls x {clean, unreplayed logs}; all single-field option mismatches and column-count mismatches",
@@ -136,7 +136,7 @@ def main():
         "version": 1,
         "setup_cmd": "./setup.sh",
         "hooks": {
-            "guard": "--cfg pdb_verif (rustc cfg; the loom build additionally sets --cfg pdb_verif_scaled)",
+            "guard": "--cfg pdb_verif (rustc cfg; the loom build additionally sets --cfg pdb_verif_scaled and --cfg pdb_verif_small_index, the trace-judging build --cfg pdb_verif_small_index)",
             "enable": "RUSTFLAGS='--cfg pdb_verif' via /verif/mc/.cargo/config.toml (and mc-loom/.cargo/config.toml); parity-db is a path dependency on /repo with features instrumentation (and loom)",
             "baseline_off_cmd": "cd /repo && cargo test --workspace --no-fail-fast --offline",
             "source_commits": hook_commits,
@@ -150,7 +150,7 @@ def main():
             {"name": "admin", "path": "/verif/mc/src/props/c17.rs", "serves_properties": ["C17"], "kind_free_text": "exhaustive sweeps over option combinations, layouts and administration calls"},
             {"name": "handles", "path": "/verif/mc/src/props/c18.rs", "serves_properties": ["C18"], "kind_free_text": "exhaustive open/drop sequences, second-opener injection at I/O boundaries, holder process killed at every recovery step"},
             {"name": "migrate", "path": "/verif/mc/src/props/c20.rs", "serves_properties": ["C20"], "kind_free_text": "exhaustive sweep over migration configurations through the real migrate()"},
-            {"name": "loommc", "path": "/verif/mc-loom", "serves_properties": ["C05", "C11", "C12", "C15", "C16"], "kind_free_text": "loom (vendored 0.5.6 with MAX_THREADS 8) over the real crate built with its loom feature; fresh OS thread per execution stepped through loom's checkpoint file"},
+            {"name": "loommc", "path": "/verif/mc-loom", "serves_properties": ["C05", "C09", "C11", "C12", "C15", "C16"], "kind_free_text": "loom (vendored 0.5.6 with MAX_THREADS 8) over the real crate built with its loom feature; fresh OS thread per execution stepped through loom's checkpoint file"},
             {"name": "seqmc", "path": "/verif/mc", "serves_properties": sorted([k for k, v in CLAIMED.items() if "seqmc" in v[0]]),
              "kind_free_text": "bounded exhaustive graph search over histories x pipeline-stage schedules of the real Db in stepping mode, reference models, pipeline model PM in lock-step"},
         ],
